@@ -7,6 +7,7 @@
 //        "fault":{"at":k,"kind":0..3}, "usepaths":[…], "steps":[{"op":…,…}…]}
 #include "vh_common.hpp"
 #include "vh_env.hpp"
+#include "vh_ast.hpp"
 
 using namespace vh;
 
@@ -60,6 +61,9 @@ namespace {
     env.install(*chai);
 
     std::map<long long, ChaiScript_Basic::State> states;
+    // C08: parsed trees kept by the driver, with the snapshot taken right after parsing
+    struct Held { std::string key; chaiscript::AST_NodePtr tree; std::string snap; };
+    std::vector<Held> held;
     std::string res = "{\"id\":" + jstr(id) + ",\"steps\":[";
     bool first = true;
     if (traced) { sink_write("reset", id, 0, 0, 0, ""); }
@@ -85,6 +89,39 @@ namespace {
         std::string extra = ",\"cb\":" + std::to_string(env.cb_calls);
         extra += ",\"shape\":" + shape_json(chai->verif_stack_shape());
         rec = outcome_json(o, env, extra);
+      } else if (op == "peval") {
+        // parse once per key, keep the tree, evaluate THE TREE (eval(AST_Node)); then compare every kept tree with its first snapshot
+        const std::string key = st.str("key", "");
+        Held *h = nullptr;
+        for (auto &x : held) { if (!key.empty() && x.key == key) { h = &x; } }
+        std::size_t constants = 0;
+        std::string perr;
+        if (h == nullptr) {
+          try {
+            auto t = chai->parse(st.str("src"));
+            std::string snap;
+            ast_snapshot(*t, *chai, "r", snap, constants);
+            held.push_back(Held{key, std::move(t), std::move(snap)});
+            h = &held.back();
+          } catch (const chaiscript::exception::eval_error &e) { perr = e.what(); }
+        }
+        if (h == nullptr) {
+          rec = "{\"oc\":\"parse_error\",\"why\":" + jstr(perr) + ",\"out\":[]}";
+        } else {
+          Outcome o = classify(*chai, [&]() -> Boxed_Value { return chai->eval(*h->tree); });
+          std::string extra = ",\"astchg\":[";
+          bool f3 = true;
+          std::size_t total = 0;
+          for (std::size_t k = 0; k < held.size(); ++k) {
+            std::string now;
+            ast_snapshot(*held[k].tree, *chai, "r", now, total);
+            const auto d = first_diff(held[k].snap, now);
+            if (!d.empty()) { extra += (f3 ? "" : ",") + ("{\"tree\":" + std::to_string(k) + ",\"diff\":" + jstr(d) + "}"); f3 = false; }
+          }
+          extra += "],\"constants\":" + std::to_string(total);
+          extra += ",\"shape\":" + shape_json(chai->verif_stack_shape());
+          rec = outcome_json(o, env, extra);
+        }
       } else if (op == "parse") {
         Outcome o = classify(*chai, [&]() -> Boxed_Value {
           auto p = chai->parse(st.str("src"));
